@@ -1,7 +1,7 @@
 (* C15 — property theorems only.  Each is closed by [exact] of a lemma of Proofs.v and followed by
    Print Assumptions. *)
 From Coq Require Import ZArith List Bool Permutation.
-From TV Require Import Common.Harness C15.Model C15.Law C15.Proofs.
+From TV Require Import Common.Harness C15.Model C15.Law C15.Proofs C15.DupProofs.
 Import ListNotations.
 
 (* The model's parser accepts exactly the token lists the grammar of _dsl_grammar.lark derives, with that
@@ -123,11 +123,21 @@ Theorem compile_error_only_for_repeated_path : forall t, compile_tree t = Compil
 Proof. exact compile_error_dup. Qed.
 Print Assumptions compile_error_only_for_repeated_path.
 
+(* F17 exactly: a parsed text (an expression) is refused only when the alternatives after some connector repeat a
+   pattern.  Behind it: create_graphs e br = create_graphs e [] with br attached at every leaf, and attaching preserves
+   and reflects ObserverGraph.__eq__ (attach_eqb, by a depth argument). *)
+Theorem compile_error_only_after_a_connector :
+  (forall t, compile_tree t = CompileError -> dup_right t = true) /\
+  (forall e, create_graphs e [] = None -> dup_right_e e = true) /\
+  (forall br a b, graph_eqb (attach br a) (attach br b) = graph_eqb a b).
+Proof. split; [exact compile_error_dup_right|split; [exact expr_error_dup_right|exact attach_eqb]]. Qed.
+Print Assumptions compile_error_only_after_a_connector.
+
 (* The law (Law.law_single), evaluated on the model's own outcome for ANY text, can only raise code 1 (F10) or
-   code 3 (F17; code 19 is the same refusal classified as "repeated pattern not after a connector": not excluded by
-   this theorem, never produced by the model on any explored text): never "accepted outside the language", never a wrong path / notify flag, never another exception. *)
-Theorem model_satisfies_law : forall s c, In c (law_single s (compile_str s)) -> c = 1%Z \/ c = 3%Z \/ c = 19%Z.
-Proof. exact model_law. Qed.
+   code 3 (F17: the repetition always sits among the alternatives after a connector, never codes 18 / 19): never
+   "accepted outside the language", never a wrong path / notify flag, never another exception. *)
+Theorem model_satisfies_law : forall s c, In c (law_single s (compile_str s)) -> c = 1%Z \/ c = 3%Z.
+Proof. exact model_law_13. Qed.
 Print Assumptions model_satisfies_law.
 
 Theorem law_holds_outside_findings : forall s,
@@ -166,8 +176,8 @@ Proof. exact expr_meaning. Qed.
 Print Assumptions expression_meaning.
 
 Theorem model_satisfies_expression_law : forall e c,
-  In c (law_expr e (match create_graphs e [] with Some gs => Graphs gs | None => CompileError end)) -> c = 3%Z \/ c = 19%Z.
-Proof. exact expr_law. Qed.
+  In c (law_expr e (match create_graphs e [] with Some gs => Graphs gs | None => CompileError end)) -> c = 3%Z.
+Proof. exact expr_law_3. Qed.
 Print Assumptions model_satisfies_expression_law.
 
 (* the pair law on the model (Python's == being the model's ObserverGraph.__eq__): for ANY two texts code 12 never
